@@ -105,6 +105,47 @@ theorem reachable_disks_load (cfg : Cfg R T) (hmode : cfg.mode = .atomic) (d : D
     (h : Reach cfg d) (i : Nat) : LoadsOk cfg d i :=
   (Reach.durable cfg hmode d h i).loadsOk
 
+/-! ## `simulate(index)`: one variation per call -/
+
+/-- **A single-variation run (`simulate(i)`) is the same machine restricted to `[i]`.**
+    Interrupted at ANY point it leaves the file of `i` as `CrashSpec` says (old file, or
+    the merge of a prefix of its outcomes) and touches no other partial file and not the
+    final results file; when it returns normally the consumed outcomes are one complete
+    C05 run of variation `i` from what was loaded and the partial file holds exactly its
+    final state — which is what a later `simulate()` (or a later `simulate(i)`) loads, so
+    running the variations one call at a time and then `simulate()` is covered by
+    `resume_exact` / `completed_variation_not_rerun`. -/
+theorem single_variation_run (cfg : Cfg R T) (i : Nat) (hi : i < cfg.nvar) (d : Disk R T) (c : Clock)
+    (outs : List (Outcome R)) :
+    (∀ pre, pre <+: (simSingleC cfg i d c outs).trace →
+      (∃ segs, segs.flatten <+: outs ∧
+        CrashSpec cfg (startOf cfg d) (fun j => (d.part j).main)
+          (fun j => ((d.applyAll pre).part j).main) [i] segs) ∧
+      (∀ j, j ≠ i → (d.applyAll pre).part j = d.part j) ∧ (d.applyAll pre).fin = d.fin) ∧
+    ((simSingleC cfg i d c outs).status = none →
+      ∃ seg st, IsVarRun cfg.merge cfg.repMax (cfg.keep i) (startOf cfg d i) seg st ∧
+        outs = seg ++ (simSingleC cfg i d c outs).rest ∧
+        callLog (simSingleC cfg i d c outs).trace = List.replicate seg.length i ∧
+        ((d.applyAll (simSingleC cfg i d c outs).trace).part i).main = .valid (partOf cfg i st) ∧
+        startOf cfg (d.applyAll (simSingleC cfg i d c outs).trace) i = some (st.acc, st.rep)) := by
+  have hnd : [i].Nodup := by simp
+  simp only [simSingleC, hi, if_true]
+  refine ⟨?_, ?_⟩
+  · intro pre hp
+    obtain ⟨u1, u2⟩ := simVarsC_trace_untouched cfg [i] d c outs hnd pre hp
+    exact ⟨simVarsC_crash cfg [i] d c outs hnd pre hp, fun j hj => u1 j (by simpa using hj), u2⟩
+  · intro hst
+    obtain ⟨_, s2, _, _⟩ := simVarsC_spec cfg [i] d c outs hnd
+    obtain ⟨segs, sts, t1, t2, _, _, t5, t6⟩ := s2 hst
+    obtain ⟨l1, l2⟩ := C05.RunsSpec_lengths cfg.base _ [i] segs sts t1
+    obtain ⟨seg, rfl⟩ : ∃ seg, segs = [seg] := List.length_eq_one_iff.mp (by simpa using l1)
+    obtain ⟨st, rfl⟩ : ∃ st, sts = [st] := List.length_eq_one_iff.mp (by simpa using l2)
+    simp only [RunsSpec] at t1
+    have hmain := t6 i st (by simp)
+    refine ⟨seg, st, by simpa [Cfg.base] using t1.1, by simpa using t2, ?_, hmain,
+      startOf_valid cfg _ i st hmain⟩
+    rw [t5]; simp [logOf]
+
 /-! ## The disk after a crash -/
 
 /-- **`crash_never_worse` (atomic discipline).**  After ANY crash point every
